@@ -131,7 +131,8 @@ LINE_CTOR = dict(props=['C08'], assumed=True, no_frame_check=True, allocates=Tru
                  reason='constructs the directive line (regex parsing of the directive text); its effects are listed in modifies')
 PL = 'bespokeasm.assembler.line_object.preprocessor_line.'
 contract(PL + 'required_language:RequiredLanguageLine.__init__', modifies=[], **LINE_CTOR)
-contract(PL + 'create_memzone:CreateMemzoneLine.__init__', modifies=['memzone_manager._zones[*]'], **LINE_CTOR)
+contract(PL + 'create_memzone:CreateMemzoneLine.__init__', name='abs:CreateMemzoneLine.__init__',
+         modifies=['memzone_manager._zones[*]'], **LINE_CTOR)
 contract(PL + 'define_symbol:DefineSymbolLine.__init__', name='abs:DefineSymbolLine.__init__',
          modifies=['preprocessor._symbols[*]'], **LINE_CTOR)
 contract(PL + 'condition_line:ConditionLine.__init__',
